@@ -373,6 +373,22 @@ func suiteC13(s *Suite, rng *Rng, tier string) {
 				diff = rng.Bits(1 + rng.Intn(250))
 			}
 		}
+		if !useTable && round%4 == 1 {
+			// the documented limit of the four-square method: differences up to 2^256 (roots of exactly 128 bits)
+			diff = rng.Bits(256)
+			diff.SetBit(diff, 255-rng.Intn(2), 1)
+			if round%8 == 1 {
+				diff = new(gbig.Int).Sub(new(gbig.Int).Lsh(bi(1), 256), bi(int64(1+rng.Intn(3))))
+			}
+			factor = 1
+			if sign == 1 {
+				// m - bound = diff with m below 2^256
+				m = new(gbig.Int).Sub(new(gbig.Int).Lsh(bi(1), 256), bi(1))
+				if diff.Cmp(m) > 0 {
+					diff.Set(m)
+				}
+			}
+		}
 		// bound such that sign*(factor*m - bound) = diff  (true statement)
 		fm := new(gbig.Int).Mul(u64big(factor), m)
 		bound := new(gbig.Int).Sub(fm, new(gbig.Int).Mul(bi(int64(sign)), diff))
